@@ -161,7 +161,7 @@ def repr_checks(q, par, ch):
     bad = []
     n = 0
     names = {l: "N" + l[1:] for l in par}
-    attrs = {"zeta": 1, "alpha": "x", "_hidden": 5, "Beta": None}
+    attrs = {"zeta": 1, "alpha": "x", "_hidden": 5, "Beta": None, "a": 2, "nam": [3], "me": "m", "names": ()}
     shown = ", ".join("%s=%r" % (k, v) for k, v in sorted(attrs.items()) if not k.startswith("_"))
     for sep, cls in (("/", Node), (";", type("SemiNode", (Node,), {"separator": ";"}))):
         objs = {l: cls(names[l], **attrs) for l in par}
